@@ -271,7 +271,9 @@ func (d *dump) key() string {
 	var b strings.Builder
 	b.WriteByte(d.cfg.tag)
 	for i, p := range d.p {
-		fmt.Fprintf(&b, "|%s uses=%v+%d users=%v exports=%v", d.cfg.pk[i], p.uses, p.foreignUses, p.users, p.exports)
+		// Exports (append-only; read by describe / load-form / snapshot only, by no
+		// operation or lookup of this property) is deliberately not part of the key
+		fmt.Fprintf(&b, "|%s uses=%v+%d users=%v", d.cfg.pk[i], p.uses, p.foreignUses, p.users)
 		for _, n := range d.cfg.names() {
 			if e, ok := p.vars[n]; ok {
 				fmt.Fprintf(&b, " v:%s=#%d@%d/%v/%d%s", n, e.cell, e.home, e.exp, e.val, e.extra)
@@ -284,42 +286,103 @@ func (d *dump) key() string {
 	return b.String()
 }
 
-// abstract maps the implementation's tables to the graph: a table entry of
+// abstract maps the implementation's tables to the graph. A table entry of
 // package X is an *inherited copy* when a directly used package holds the same
-// exported cell under the same name; every other entry is a definition X has.
+// exported cell under the same name and that entry is itself grounded (a
+// definition, or inherited from one); every other entry is a definition X has.
+// Grounding is computed as a least fixpoint so that mutual use is handled:
+//  1. entries that no used package could explain are definitions;
+//  2. entries explained by a grounded entry are inherited copies (repeat);
+//  3. among the remaining ones (cycles) the entry whose cell names X as its
+//     home package is the definition, then 2 again; what still remains are
+//     definitions.
 // Function entries that slip's own lookup rule hides from X (not exported and
 // belonging elsewhere) are kept as hidden: only X::n reaches them.
 // aliased lists (package, kind, name) triples whose cell is a "definition" of
-// more than one package (possible only after an earlier defect): the oracle
-// does not judge those slots (degraded mode, S9).
+// more than one package, is hidden, or is an orphaned copy of a cell its home
+// package no longer holds (all possible only after an earlier defect): the
+// oracle does not judge those slots (degraded mode, S9).
 func (d *dump) abstract() (g *graph, aliased map[string]bool) {
 	g = newGraph(d.cfg)
 	aliased = map[string]bool{}
 	owners := map[string][]int{}
 	for x, p := range d.p {
 		g.p[x].uses = append([]int(nil), p.uses...)
-		for _, kind := range []byte{'v', 'f'} {
-			tab := p.vars
+	}
+	for _, kind := range []byte{'v', 'f'} {
+		tabOf := func(x int) map[string]entry {
 			if kind == 'f' {
-				tab = p.funcs
+				return d.p[x].funcs
 			}
-			for n, e := range tab {
-				inherited := false
-				for _, y := range p.uses {
-					ytab := d.p[y].vars
-					if kind == 'f' {
-						ytab = d.p[y].funcs
-					}
-					if ey, ok := ytab[n]; ok && ey.cell == e.cell && e.exp {
-						inherited = true
+			return d.p[x].vars
+		}
+		for _, n := range d.cfg.names() {
+			const (
+				unknown = iota
+				own
+				inherited
+			)
+			state := make([]int, len(d.p))
+			present := make([]bool, len(d.p))
+			var ents []entry
+			for x := range d.p {
+				e, ok := tabOf(x)[n]
+				ents = append(ents, e)
+				present[x] = ok
+			}
+			explainers := func(x int) (out []int) {
+				for _, y := range d.p[x].uses {
+					if present[y] && ents[y].cell == ents[x].cell && ents[x].exp {
+						out = append(out, y)
 					}
 				}
-				if inherited {
+				return
+			}
+			propagate := func() {
+				for changed := true; changed; {
+					changed = false
+					for x := range d.p {
+						if !present[x] || state[x] != unknown {
+							continue
+						}
+						for _, y := range explainers(x) {
+							if state[y] != unknown {
+								state[x] = inherited
+								changed = true
+								break
+							}
+						}
+					}
+				}
+			}
+			for x := range d.p {
+				if present[x] && len(explainers(x)) == 0 {
+					state[x] = own
+				}
+			}
+			propagate()
+			for x := range d.p {
+				if present[x] && state[x] == unknown && ents[x].home == x {
+					state[x] = own
+				}
+			}
+			propagate()
+			for x := range d.p {
+				if present[x] && state[x] == unknown {
+					state[x] = own
+				}
+			}
+			for x := range d.p {
+				if !present[x] || state[x] != own {
 					continue
 				}
+				e := ents[x]
 				df := &def{val: e.val, exp: e.exp, cell: e.cell}
 				if kind == 'f' && !e.exp && e.home != x {
 					df.hidden = true
+				}
+				if h := e.home; 0 <= h && h != x && (!present[h] || ents[h].cell != e.cell) {
+					df.stale = true
 				}
 				g.tab(x, kind)[n] = df
 				ck := fmt.Sprintf("%c%d", kind, e.cell)
@@ -330,7 +393,7 @@ func (d *dump) abstract() (g *graph, aliased map[string]bool) {
 	for x := range d.p {
 		for _, kind := range []byte{'v', 'f'} {
 			for n, df := range g.tab(x, kind) {
-				if 1 < len(owners[fmt.Sprintf("%c%d", kind, df.cell)]) {
+				if 1 < len(owners[fmt.Sprintf("%c%d", kind, df.cell)]) || df.hidden || df.stale {
 					aliased[fmt.Sprintf("%d%c%s", x, kind, n)] = true
 				}
 			}
